@@ -55,7 +55,9 @@ func c07History(c *vc.Ctx, idx int) {
 		return
 	}
 	defer h.close()
-	h.crashFn = func(cr *world.ErrCrash) { c.Inconclusive("FinalizeBlock failed on the primary (reported under C13): %v", cr) }
+	h.crashFn = func(cr *world.ErrCrash) {
+		c.Inconclusive("FinalizeBlock failed on the primary (reported under C13): %v", cr)
+	}
 	bm := newBridgeModel(c.Seed, h.ch.W.BtcKey)
 	var hot []int64
 	primary := map[int64]world.Outcome{}
